@@ -2055,10 +2055,12 @@ Boolean INCLUDE_Processor(PInputTag PInp, as_dynstr_t* p_dest) {
         *p_dest->p_str = '\0';
     } else {
         Count = ReadLnCont(PInp->Datei, p_dest);
-        /**ChkIO(ErrNum_FileReadError);**/
+        if (ferror(PInp->Datei)) {
+            ChkIO(ErrNum_FileReadError);
+        }
     }
     PInp->LineZ = CurrLine = (MomLineCounter += Count);
-    if (feof(PInp->Datei)) {
+    if (feof(PInp->Datei) || ferror(PInp->Datei)) {
         Result = False;
     }
 
